@@ -7,7 +7,18 @@
 // asserted) by the driver; offsets as small ids (nastykeys.OffOf maps them to 40 bit
 // offsets). A panic of the real code is an event (ok:0), not a harness crash.
 //
-// usage: btree <trace.ndjson> <nsmall> <nmedium> <nbig> <nlong> <nenum>
+// Node sizes are OBSERVED, not inferred from panics: after every successful bulk build
+// and MergeAndSave the stored nodes of the new version are walked straight from the stor
+// bytes (layout documented at the top of leafnode.go / treenode.go; root offset and levels
+// from the header btree.Write produces) and a Nodes event reports the number of nodes,
+// the largest node size / fan-out, the number of keys found in the leaves, and a description
+// of every node above 8192 bytes (how many long keys / separators it holds, what is left
+// without them, how many bytes a leaf wastes on a prefix it could share): only the exact
+// shapes of the registered findings may excuse an oversized node (checks/C10.py classify()).
+// Build and Merge events carry big2 = the lengths of the two longest keys inserted into
+// the scenario's tree so far (incl. the call itself), for the reader of a replay.
+//
+// usage: btree <trace.ndjson> <nsmall> <nmedium> <nbig> <nlong> <nenum> [<nlbuild>]
 package main
 
 import (
@@ -42,6 +53,8 @@ type scen struct {
 	noff   int
 	nit    int
 	dead   bool
+	split  int
+	big2   [2]int // lengths of the two longest keys ever inserted into this scenario's tree
 	// skip-scan tables (composite universes only): distinct prefixes / suffixes for skipStart = 1
 	pfx, sfx []string
 }
@@ -105,7 +118,7 @@ func newScen(tr *vh.Trace, rnd *rand.Rand, keys []string, split int, kind string
 	if msg := nastykeys.Check(keys); msg != "" {
 		vh.Fatal("%s", msg)
 	}
-	s := &scen{tr: tr, rnd: rnd, keys: keys, K: len(keys), offid: map[uint64]int{}}
+	s := &scen{tr: tr, rnd: rnd, keys: keys, K: len(keys), offid: map[uint64]int{}, split: split}
 	btree.SetSplit(split)
 	s.st = stor.HeapStor(64 * 1024)
 	s.st.Alloc(1 + rnd.Intn(9000)) // offset 0 means "no node" to the merge code (DESIGN 6.1)
@@ -129,6 +142,7 @@ func (s *scen) build(ranks []int) {
 		b := btree.NewBuilder(s.st)
 		for _, r := range ranks {
 			id, off := s.newOff()
+			s.noteLen(len(s.keys[r-1]))
 			a := b.Add(s.keys[r-1], off)
 			ks = append(ks, r)
 			offs = append(offs, id)
@@ -143,9 +157,11 @@ func (s *scen) build(ranks []int) {
 	})
 	s.vers = append(s.vers, bt)
 	s.shadow = append(s.shadow, sh)
-	s.tr.Emit(vh.E("Build", "v", len(s.vers), "ks", ks, "offs", offs, "added", added, "ok", ok, "msg", msg))
+	s.tr.Emit(vh.E("Build", "v", len(s.vers), "ks", ks, "offs", offs, "added", added, "big2", s.big2[:], "ok", ok, "msg", msg))
 	if ok == 0 {
 		s.dead = true
+	} else {
+		s.nodes(len(s.vers), "build")
 	}
 	stats["builds"]++
 }
@@ -272,6 +288,9 @@ func (s *scen) merge(from int, b []change) int {
 	sh := append([]int(nil), s.shadow[from-1]...)
 	for i, c := range b {
 		ks[i], ops[i], offs[i] = c.r, c.op, c.id
+		if c.op == "add" {
+			s.noteLen(len(s.keys[c.r-1]))
+		}
 		if c.op == "del" {
 			sh[c.r-1] = 0
 		} else {
@@ -283,9 +302,18 @@ func (s *scen) merge(from int, b []change) int {
 	s.vers = append(s.vers, bt)
 	s.shadow = append(s.shadow, sh)
 	v := len(s.vers)
-	s.tr.Emit(vh.E("Merge", "from", from, "v", v, "ks", ks, "ops", ops, "offs", offs, "ok", ok, "msg", msg))
+	dstep, dw := 0, nodeWalk{big: [][]int{}}
+	if ok == 0 && strings.Contains(msg, "too large") {
+		dstep, dw = s.diagnose(from, b)
+		stats["too_large_panics_diagnosed"]++
+	}
+	s.tr.Emit(vh.E("Merge", "from", from, "v", v, "ks", ks, "ops", ops, "offs", offs, "big2", s.big2[:], "ok", ok, "msg", msg,
+		"dstep", dstep, "dnover", dw.nover, "dbig", dw.big))
 	stats["merges"]++
 	stats["changes"] += len(b)
+	if ok == 1 {
+		s.nodes(v, "merge")
+	}
 	if ok == 0 {
 		s.dead = true
 	} else if bt.TreeLevels() >= 6 {
@@ -296,6 +324,194 @@ func (s *scen) merge(from int, b []change) int {
 		s.dead = true
 	}
 	return v
+}
+
+func (s *scen) noteLen(n int) {
+	if n > s.big2[0] {
+		s.big2[0], s.big2[1] = n, s.big2[0]
+	} else if n > s.big2[1] {
+		s.big2[1] = n
+	}
+}
+
+func be16(b []byte) int { return int(b[0])<<8 | int(b[1]) }
+
+func be40(b []byte) uint64 {
+	return uint64(b[0])<<32 | uint64(b[1])<<24 | uint64(b[2])<<16 | uint64(b[3])<<8 | uint64(b[4])
+}
+
+// longKey: a key / separator of at least this many bytes counts as "long" in the description of
+// an oversized node (fewer than 9 of them fill a node)
+const longKey = 1000
+
+func lcp(a, b []byte) int {
+	i := 0
+	for i < len(a) && i < len(b) && a[i] == b[i] {
+		i++
+	}
+	return i
+}
+
+// nodes walks every stored node of version v directly from the stor bytes and logs what
+// the size invariants are about: number of nodes, largest node (bytes), largest fan-out,
+// number of keys found in the leaves, and a description of every node above the limit:
+//
+//	[size, isLeaf, entries, longest, second longest key/separator,
+//	 nlong = entries of >= longKey bytes, rest = size of the node without those,
+//	 lost = bytes a leaf wastes because its stored prefix is shorter than the prefix that all
+//	        its keys (or all but its first / all but its last key) share,
+//	 off = stor offset of the node (the same node shows up in every later version that keeps it)]
+//
+// (op = which operation produced the version: "build" = Builder, "merge" = MergeAndSave)
+func (s *scen) nodes(v int, op string) {
+	w, ok, msg := s.walkNodes(s.vers[v-1], op)
+	s.tr.Emit(vh.E("Nodes", "v", v, "op", op, "split", s.split, "n", w.n, "maxsz", w.maxsz, "maxfan", w.maxfan, "nk", w.nk,
+		"nover", w.nover, "big", w.big, "ok", ok, "msg", msg))
+	stats["nodewalks"]++
+	stats["nodes_seen"] += w.n
+	stats["max_node_size"] = max(stats["max_node_size"], w.maxsz)
+	if w.nover > 0 {
+		stats["trees_with_oversized_node_"+op]++
+	}
+}
+
+type nodeWalk struct {
+	n, maxsz, maxfan, nk, nover int
+	big                         [][]int
+}
+
+func (s *scen) walkNodes(bt *btree.T, op string) (w nodeWalk, ok int, msg string) {
+	const limit = 8192
+	w.big = [][]int{}
+	ok, msg = safely(func() {
+		buf := make([]byte, 16)
+		bt.Write(stor.NewWriter(buf))
+		rd := stor.NewReader(buf)
+		root := uint64(rd.Get5())
+		levels := rd.Get1()
+		var walk func(depth int, off uint64)
+		walk = func(depth int, off uint64) {
+			d := s.st.Data(off)
+			w.n++
+			if w.n > 100000 {
+				panic("node walk does not terminate")
+			}
+			cnt := int(d[0])
+			var size, fan, base, first, plen int
+			leaf := depth >= levels
+			if leaf {
+				base = 2
+				size = be16(d[2+7*cnt:])
+				fan = cnt
+				plen = int(d[1])
+				first = 4 + 7*cnt + plen // the prefix is stored in front of the first suffix
+			} else {
+				base = 1
+				size = be16(d[1+7*cnt:])
+				fan = cnt + 1
+				if cnt == 0 && size == 3 {
+					fan = 0
+				}
+				first = 1 + 7*cnt + 2 + 5
+			}
+			fields := make([][]byte, cnt) // suffixes (leaf) / separators (tree)
+			for i := 0; i < cnt; i++ {
+				fo := be16(d[base+7*i:])
+				fe := be16(d[base+7*(i+1):]) // the node size acts as the final field offset
+				if fo < first || fe < fo || fe > size {
+					panic(fmt.Sprintf("stored node at %d: field %d of %d spans %d..%d, node size %d", off, i, cnt, fo, fe, size))
+				}
+				fields[i] = d[fo:fe]
+			}
+			w.maxsz, w.maxfan = max(w.maxsz, size), max(w.maxfan, fan)
+			if size > limit {
+				w.nover++
+				k1, k2, nlong, rest, lens := 0, 0, 0, size, []int{}
+				for _, f := range fields {
+					kl := len(f) + plen
+					lens = append(lens, kl)
+					if kl > k1 {
+						k1, k2 = kl, k1
+					} else if kl > k2 {
+						k2 = kl
+					}
+					if kl >= longKey {
+						nlong++
+						rest -= 7 + len(f)
+					}
+				}
+				l, lost := 0, 0
+				if leaf {
+					l = 1
+					// the suffixes are sorted: what a run of them shares is what its ends share
+					waste := func(lo, hi int) int { // suffixes lo..hi-1
+						if hi-lo < 2 {
+							return 0
+						}
+						extra := min(255-plen, lcp(fields[lo], fields[hi-1]))
+						return extra*(hi-lo) - extra
+					}
+					lost = max(waste(0, cnt), waste(1, cnt), waste(0, cnt-1))
+				}
+				if len(w.big) < 50 {
+					if off >= 1<<31 {
+						vh.Fatal("node offset %d does not fit the trace's 32 bit integers", off)
+					}
+					w.big = append(w.big, []int{size, l, cnt, k1, k2, nlong, rest, lost, int(off)})
+				}
+				if os.Getenv("VERIF_DEBUG") != "" {
+					fmt.Fprintf(os.Stderr, "OVERSIZED %s split=%d size=%d leaf=%v prefix=%d nlong=%d rest=%d lost=%d keylens=%v\n",
+						op, s.split, size, leaf, plen, nlong, rest, lost, lens)
+				}
+			}
+			if leaf {
+				w.nk += cnt
+				return
+			}
+			for i := 0; i <= cnt && i < fan; i++ {
+				walk(depth+1, be40(d[1+7*i+2:]))
+			}
+		}
+		walk(0, root)
+	})
+	return
+}
+
+// diagnose is called when MergeAndSave(b) on version from panicked with 'too large': an oversized
+// node that a split stores silently and the SAME call then refuses to path-copy is never part of
+// a version the node walk could see. The batch is applied again entry by entry (MergeAndSave is
+// defined as applying the entries one after the other), walking the stored nodes after every
+// entry: step = the entry after which a node above the limit is stored, w = its description
+// (step 0: no oversized node was stored before the stepwise application failed or finished).
+func (s *scen) diagnose(from int, b []change) (step int, w nodeWalk) {
+	bt := s.vers[from-1]
+	w.big = [][]int{}
+	for i, c := range b {
+		done := false
+		var bt2 *btree.T
+		ok, _ := safely(func() {
+			bt2 = bt.MergeAndSave(func() (string, uint64, bool) {
+				if done {
+					return "", 0, false
+				}
+				done = true
+				return s.keys[c.r-1], flag(c), true
+			})
+		})
+		stats["panics"] -= 1 - ok // counted once, by the batch
+		if ok == 0 {
+			return 0, w
+		}
+		w2, ok, _ := s.walkNodes(bt2, "merge-step")
+		if ok == 0 {
+			return 0, w
+		}
+		if w2.nover > 0 {
+			return i + 1, w2
+		}
+		bt = bt2
+	}
+	return 0, w
 }
 
 // reopen serializes the btree header (root offset, tree levels) and reads it back, as the
@@ -567,6 +783,155 @@ func randSubset(rnd *rand.Rand, K int, p float64, dups bool) []int {
 	return rs
 }
 
+// ---------------------------------------------------------------------------------------
+// bulk builds that reach the BYTE limit of a leaf before the count limit (C10 size invariant):
+// the Builder's leaf size estimate only matters once the keys of a leaf total more than
+// maxNodeSize - 7*splitCount = 7492 bytes, i.e. with keys averaging more than ~75 bytes.
+
+func pad(n int, c byte) string { return strings.Repeat(string(c), n) }
+
+// longUniverse makes a sorted key universe of long keys; variant:
+//
+//	0 groups    runs of keys sharing a long prefix (20..300 bytes); the next run starts with a
+//	            different byte, or keeps only a part of the prefix: the key that opens a run
+//	            SHORTENS the shared prefix of a leaf that is nearly full by bytes
+//	1 nearmax   adjacent keys of 4060..4096 bytes that share little (a leaf holds one of them),
+//	            or share a long prefix (a leaf holds two), mixed with short and medium keys
+//	2 ragged    150..300 keys of 40..200 bytes over a small alphabet, hardly any sharing
+//	3 exact     keys of 70..80 bytes without a common prefix: 100 keys total about 7492 bytes
+//	            (the Builder's fast path limit), split 100
+//	4 edge      70..100 keys sharing one prefix of 150..300 bytes, plus one key below and one
+//	            above them that do not share it (lbuild leaves those two to the first batch: an
+//	            insert at the edge of a leaf that shortens its prefix)
+func longUniverse(rnd *rand.Rand, variant int) []string {
+	set := map[string]bool{}
+	add := func(k string) {
+		if len(k) <= nastykeys.MaxLen && k < nastykeys.MaxKey {
+			set[k] = true
+		}
+	}
+	switch variant {
+	case 0:
+		ng := 2 + rnd.Intn(4)
+		common := ""
+		if rnd.Intn(2) == 0 {
+			common = pad([]int{5, 30, 100, 200}[rnd.Intn(4)], 'X') // part of the prefix survives
+		}
+		for g := 0; g < ng; g++ {
+			p := []int{20, 40, 60, 60, 100, 150, 200, 254, 255, 256, 300}[rnd.Intn(11)]
+			w := []int{16, 24, 40, 40, 60, 100, 150}[rnd.Intn(7)]
+			m := 25 + rnd.Intn(90)
+			pre := common + pad(p, byte('A'+2*g))
+			step := 1 + rnd.Intn(3)
+			for i := 0; i < m; i++ {
+				add(pre + fmt.Sprintf("%0*d", w, 1000+i*step))
+			}
+			if rnd.Intn(3) == 0 {
+				add(pre) // the prefix itself is a key
+			}
+		}
+	case 1:
+		n := 3 + rnd.Intn(5)
+		for i := 0; i < n; i++ {
+			c := byte('b' + 3*i)
+			ln := 4060 + rnd.Intn(37)
+			switch rnd.Intn(3) {
+			case 0: // nothing shared with the neighbours
+				add(string(c) + pad(ln-1, c+1))
+			case 1: // two that share all but the end
+				add(pad(ln-2, c) + "a")
+				add(pad(ln-2, c) + "b")
+			case 2: // two that share 100..300 bytes
+				q := pad(100+rnd.Intn(200), c)
+				add(q + pad(ln-len(q), 'm'))
+				add(q + pad(ln-len(q)-1, 'n'))
+			}
+			for j := rnd.Intn(4); j > 0; j-- {
+				add(string(c) + fmt.Sprintf("%0*d", 5+rnd.Intn(150), j))
+			}
+		}
+	case 2:
+		n := 150 + rnd.Intn(150)
+		lo := 40 + rnd.Intn(60)
+		for len(set) < n {
+			b := make([]byte, lo+rnd.Intn(100))
+			for i := range b {
+				b[i] = "abcdefgh"[rnd.Intn(8)]
+			}
+			add(string(b))
+		}
+	case 4:
+		pre := pad([]int{150, 200, 255, 300}[rnd.Intn(4)], 'B')
+		for i, m := 0, 70+rnd.Intn(31); i < m; i++ {
+			add(pre + fmt.Sprintf("%020d", i))
+		}
+		add("A" + fmt.Sprintf("%0*d", rnd.Intn(40), 0))
+		add("C" + fmt.Sprintf("%0*d", rnd.Intn(40), 0))
+	case 3:
+		n := 200 + rnd.Intn(150)
+		for i := 0; len(set) < n; i++ {
+			// first byte spreads over the alphabet: no common prefix in any leaf
+			add(string(rune('A'+i%50)) + fmt.Sprintf("%0*d", 69+rnd.Intn(11), i))
+		}
+	}
+	ks := make([]string, 0, len(set))
+	for k := range set {
+		ks = append(ks, k)
+	}
+	sort.Strings(ks)
+	return ks
+}
+
+// lbuild: bulk build over a long-key universe (all keys, or most of them), full observation,
+// then a few change batches (which split byte-full leaves and change shared prefixes)
+func lbuild(tr *vh.Trace, rnd *rand.Rand, variant int) {
+	keys := longUniverse(rnd, variant)
+	split := 100 // the production value: fieldsLimit is derived from it at package init
+	if variant != 3 && rnd.Intn(4) == 0 {
+		split = []int{8, 20, 50}[rnd.Intn(3)]
+	}
+	if variant == 4 {
+		split = 100
+	}
+	kind := []string{"groups", "nearmax", "ragged", "exact", "edge"}[variant]
+	s := newScen(tr, rnd, keys, split, "lbuild/"+kind)
+	p := []float64{1, 1, 0.9, 0.6}[rnd.Intn(4)]
+	ranks := randSubset(rnd, s.K, p, rnd.Intn(4) == 0)
+	if variant == 4 { // everything but the two keys that do not share the prefix
+		ranks = ranks[:0]
+		for r := 2; r < s.K; r++ {
+			ranks = append(ranks, r)
+		}
+	}
+	s.build(ranks)
+	if s.dead {
+		return
+	}
+	s.state(1)
+	if rnd.Intn(2) == 0 {
+		s.chkKeys(1)
+	}
+	s.walk(1, 10)
+	nb := 1 + rnd.Intn(3)
+	for i := 0; i < nb && !s.dead; i++ {
+		from := len(s.vers)
+		b := s.genBatch(from)
+		if variant == 4 && i == 0 {
+			b = b[:0]
+			for _, r := range [][]int{{1}, {s.K}, {1, s.K}}[rnd.Intn(3)] {
+				id, off := s.newOff()
+				b = append(b, change{r, "add", id, off})
+			}
+		}
+		v := s.merge(from, b)
+		if s.dead {
+			return
+		}
+		s.state(v)
+		s.walk(v, 6)
+	}
+}
+
 // generic scenario: build, then nb batches, observing after every batch
 func generic(tr *vh.Trace, rnd *rand.Rand, kind string, K int, style nastykeys.Style, split int, nb int, walkLen int) {
 	keys := nastykeys.Universe(rnd, K, style)
@@ -725,10 +1090,14 @@ func atoi(s string) int { n, _ := strconv.Atoi(s); return n }
 
 func main() {
 	if len(os.Args) < 7 {
-		vh.Fatal("usage: btree <trace> <nsmall> <nmedium> <nbig> <nlong> <nenum>")
+		vh.Fatal("usage: btree <trace> <nsmall> <nmedium> <nbig> <nlong> <nenum> [<nlbuild>]")
 	}
 	out := os.Args[1]
 	nsmall, nmed, nbig, nlong, nenum := atoi(os.Args[2]), atoi(os.Args[3]), atoi(os.Args[4]), atoi(os.Args[5]), atoi(os.Args[6])
+	nlbuild := 0
+	if len(os.Args) > 7 {
+		nlbuild = atoi(os.Args[7])
+	}
 	rnd := rand.New(rand.NewSource(vh.Seed()*7919 + 10))
 	tr := vh.Create(out)
 	defer tr.Close()
@@ -762,6 +1131,12 @@ func main() {
 		K := 12 + rnd.Intn(40)
 		split := []int{3, 5, 100, 200}[rnd.Intn(4)]
 		generic(tr, rnd, "long", K, nastykeys.LongPfx, split, 4+rnd.Intn(6), 10)
+	}
+	// (own generator so that the scenarios above are the same with and without these)
+	rnd2 := rand.New(rand.NewSource(vh.Seed()*104729 + 11))
+	for i := 0; i < nlbuild; i++ {
+		reset()
+		lbuild(tr, rnd2, []int{0, 1, 0, 2, 4, 3}[i%6])
 	}
 	for i := 0; i < nenum; i++ {
 		// nenum >= 16 covers every initial key set over 4 keys; smaller values sample
